@@ -13,7 +13,7 @@
 From Coq Require Import NArith Bool List Lia.
 From stdpp Require Import base list option.
 From RecordUpdate Require Import RecordSet.
-From RC Require Import Hdr Machine RunInd Inv InvP SafeMain SafeProps Pass PassMain SafeFinalPropsA SafeFinalProps SafeColl SafeFinal SafeFinalProg SafeFinalOwn.
+From RC Require Import Hdr Machine RunInd Inv InvP SafeMain SafeProps Pass PassMain SafeFinalPropsA SafeFinalProps SafeColl SafeFinal SafeFinalProg SafeFinalOwn SafeFinalOwn2.
 Import ListNotations RecordSetNotations.
 Local Open Scope N_scope.
 
@@ -155,7 +155,52 @@ Theorem C04_last_owner_recursive_partial :
 Proof. exact SafeFinalOwn.owned_field_freed. Qed.
 Print Assumptions C04_last_owner_recursive_partial.
 
+(** ** ... recursively, relative to ONE explicit frame hypothesis (SafeFinalOwn2.v).
+    [SolelyOwned K m o t] (inductive): [t] is reached from [o] through strong fields and every
+    object on the way, [t] included, satisfies [sole_at]: allocated, alive, strong count 1, not
+    linked in a collector list (IL/IQ), no finalizer to run ([k_fin K && needs_fin = false]), and
+    NO Weak handle points to it ([wrefs m t = 0]).
+    [SoleFrame K P] (HYPOTHESIS, not proved): for every activation [c] of [run K P n] started under
+    [Pre]/[Q] and returning ONormal/OPanic, for every value [p] whose destruction is running at the
+    entry ([VDropping], [ex_of c <> Some p]) the [sole_at] facts of the objects solely owned by [p]
+    are the same at the exit.  It is validated by the executable checker (SafeRig.v codes 243/245)
+    on the corpus and 3600 random programs; without the side condition [wrefs = 0] it is false (a
+    Drop impl may upgrade a Weak to a solely owned child: legal resurrection; executed
+    counterexample in SafeFinalOwn2.v), so the conjunct [of_sole] proposed in SafeFinalOwn.v is
+    false as stated.  Proving [SoleFrame] needs a second induction over all activations
+    (including the tracing pass of the collector); it cannot be added to part A's [ObjFr] without
+    re-proving part B.
+    THEOREM: [Cc::drop] of the last owner of [o] (count 1, not linked, no finalizer to run),
+    outcome ONormal: [o] and everything it solely owned are freed, their values destroyed. *)
+Theorem C04_last_owner_recursive_frame_partial :
+  forall (K : conf) (P : prog),
+  (k_clean K = true -> k_weak K = true) -> wf_prog P = true ->
+  SoleFrame K P ->
+  forall (n : nat) (b : bool) (E A : list id) (o : id) (m m' : machine),
+  Pre K (PreC K) b E (KDropCc o) m -> Q K A (KDropCc o) m ->
+  (exists xo : obj, get m o = Some xo /\ h_rc (o_hdr xo) = 1 /\ is_in_list_or_queue (o_hdr xo) = false /\
+                    k_fin K && needs_fin (o_hdr xo) = false) ->
+  run K P n (KDropCc o) m = (m', ONormal) ->
+  (exists y : obj, get m' o = Some y /\ o_box y = BFreed /\ o_vst y = VDropped) /\
+  forall t : id, SolelyOwned K m o t -> exists y : obj, get m' t = Some y /\ o_box y = BFreed /\ o_vst y = VDropped.
+Proof.
+  intros K P Hconf Hwf HSF n b E A o m m' Hpre HQ Hlo Hrun.
+  exact (SafeFinalOwn2.last_owner_recursive K P Hconf Hwf HSF n b E A o m m' Hpre HQ Hlo Hrun).
+Qed.
+Print Assumptions C04_last_owner_recursive_frame_partial.
+
 (** ** Pins *)
+Check C04_last_owner_recursive_frame_partial :
+  forall (K : conf) (P : prog),
+  (k_clean K = true -> k_weak K = true) -> wf_prog P = true ->
+  SoleFrame K P ->
+  forall (n : nat) (b : bool) (E A : list id) (o : id) (m m' : machine),
+  Pre K (PreC K) b E (KDropCc o) m -> Q K A (KDropCc o) m ->
+  (exists xo : obj, get m o = Some xo /\ h_rc (o_hdr xo) = 1 /\ is_in_list_or_queue (o_hdr xo) = false /\
+                    k_fin K && needs_fin (o_hdr xo) = false) ->
+  run K P n (KDropCc o) m = (m', ONormal) ->
+  (exists y : obj, get m' o = Some y /\ o_box y = BFreed /\ o_vst y = VDropped) /\
+  forall t : id, SolelyOwned K m o t -> exists y : obj, get m' t = Some y /\ o_box y = BFreed /\ o_vst y = VDropped.
 Check C04_last_owner_recursive_partial :
   forall (K : conf) (P : prog),
   (k_clean K = true -> k_weak K = true) -> wf_prog P = true ->
